@@ -279,3 +279,71 @@ func HarnessIntervalChange() {
 		vAssert(!died, "c18.refused-interval-reaches-the-janitor-and-kills-it")
 	}
 }
+
+// HarnessEvictInterleaved: another request deletes an entry / stores a new one at any lock
+// boundary of an eviction run: the run still stops as soon as (and not before) the LIVE
+// size is at the target.
+func HarnessEvictInterleaved() {
+	limit := int64(1000)
+	target := int64(800)
+	c := newMem(4, limit)
+	vClockFreeze(true)
+	now := time.Now()
+	n := 6 // 1200 bytes stored: two removals are needed without interference
+	for i := 0; i < n; i++ {
+		putMeta(c, vKeysN(i), 200, now.Add(time.Hour), now.Add(-time.Duration(n-i)*time.Minute)) // key 0 is the oldest
+	}
+	kind := symChoice(2)
+	extra := CacheKey{Hex: "0000000feeee"}
+	t := 0 // which eviction run is executing: the janitor's (0) or one started by the other request's store (1)
+	vInterpose(func() {
+		t = 1
+		if kind == 0 {
+			c.Delete(vKeysN(n - 1)) // the most recently used entry
+		} else {
+			c.Cache(extra, &symReader{data: make([]byte, 3), failAt: -1}, now.Add(time.Hour), vmeta{})
+		}
+		t = 0
+	}, 1)
+	// "stopping as soon as the target is reached" with other requests changing the size:
+	// every removal must be decided on the LIVE size - the run reads the size afresh before each
+	// removal and that reading is above the target (a reading made stale by a request that
+	// lands between the reading and the removal is tolerated).
+	remove := c.janitor.cacheFns.removeEntry
+	size := c.janitor.cacheFns.getCacheSize
+	var reads, lastRead [2]int64
+	readsAtLastRemoval := [2]int64{-1, -1}
+	c.janitor.cacheFns.getCacheSize = func() int64 {
+		reads[t]++
+		lastRead[t] = size()
+		return lastRead[t]
+	}
+	c.janitor.cacheFns.removeEntry = func(k CacheKey) error {
+		vAssert(reads[t] > readsAtLastRemoval[t] && lastRead[t] > target, "c13.evict.removal-not-decided-on-the-live-size")
+		readsAtLastRemoval[t] = reads[t]
+		return remove(k)
+	}
+	c.janitor.ensureCacheSize()
+	vInterpose(nil, 0)
+	if vInterposed() == 0 {
+		return
+	}
+	vReach("interfered")
+	after := c.byteSize.Get()
+	evicted := 0
+	for i := 0; i < n-1; i++ {
+		if _, ok := c.entries[vKeysN(i)]; !ok {
+			evicted++
+			// victims are taken oldest first
+			for j := 0; j < i; j++ {
+				_, older := c.entries[vKeysN(j)]
+				vAssert(!older, "c13.evict.kept-a-higher-priority-entry")
+			}
+		}
+	}
+	vAssert(after <= target, "c13.evict.stopped-above-target")
+}
+
+func vKeysN(i int) CacheKey {
+	return CacheKey{Hex: "0000000" + string(rune('0'+i)) + "kkkk"}
+}
